@@ -3,10 +3,11 @@ from .. import common as C
 from ..lbgen import enc
 
 ID = "C16"
-MODULES = ["Helios.Props.C16", "Helios.Props.C01"]
+MODULES = ["Helios.Props.C16", "Helios.Props.C01", "Helios.Props.CodeHdr"]
 THEOREMS = ["Helios.Ids.id_consistent", "Helios.Ids.supplied_unchanged", "Helios.Ids.blank_generated",
             "Helios.Ids.disabled_untouched", "Helios.Ids.id_injective", "Helios.Http.id_on_every_path",
-            "Helios.Proxy.via_transparent"]
+            "Helios.Proxy.via_transparent",
+            "Helios.CodeTie.validHeaderFieldName_refines", "Helios.CodeTie.translation_clean_hdr"]
 VALUES = ["abc", " lead", "trail\t", "abc ", " abc", " \t ", " ", " ", "x" * 300, "id with spaces", "ünïcödé",
           "req_0123", "a,b", "%41", "-", "none", "none", "none"]
 HEADERS = [("-", "-"), ("-", "-"), ("X-Correlation-Id", "X-B3-Traceid"), ("x-my-req", "-"), (" X-Padded ", "traceparent"),
@@ -97,6 +98,8 @@ def wire_episodes(rng):
                             ("GET", ["wh:103", "sh:Content-Length:0", "wh:200"]),
                             ("HEAD", ["wh:103", "sh:Content-Length:5000", "wh:200"]),
                             ("GET", ["wh:103", "wh:204"]),
+                            # every interim status is interim: 102 Processing, an unknown 1xx, several in a row
+                            ("GET", ["wh:102", "wh:200", "w:3:1"]), ("GET", ["wh:199", "wh:102", "wh:103", "wh:200"]), ("POST", ["wh:102", "wh:500"]),
                             ("GET", ["wh:103", "wh:201", "w:10:3"]),
                             ("GET", ["wh:200"]), ("GET", ["wh:404"]), ("HEAD", ["wh:200"]),
                             # a backend that echoes one of the two identifiers it was sent on its final answer, after an
@@ -111,6 +114,39 @@ def wire_episodes(rng):
         ep.append("px close")
         eps.append(ep)
     return eps
+
+
+def own_id_episodes(rng):
+    """a backend that stamps its answers with an identifier of its own under the same header name, with and without an
+    interim response first: the client gets the propagated identifier as the first value AND the backend's line (a
+    response header like any other). Judged by the oracles alone: the wire model's headers are single-valued."""
+    from . import c01
+    eps = []
+    for feats in ("-", "ls", "l"):
+        ep = ["px new round_robin 11 - %s" % feats]
+        for ops, h in ((["sh:X-Request-Id:backend-77", "wh:200", "w:2:1"], [("X-Request-Id", "client-77")]),
+                       (["sh:X-Trace-Id:backend-t", "wh:200"], []),
+                       (["wh:103", "sh:X-Request-Id:backend-78", "wh:201"], [("X-Trace-Id", "t-9")]),
+                       (["wh:102", "sh:X-Request-Id:backend-79", "sh:X-Trace-Id:backend-tt", "wh:200", "w:5:2"], []),
+                       (["sh:X-Request-Id:backend-80", "wh:103", "wh:404"], [("X-Request-Id", "client-80")])):
+            for mode in ("direct", "via"):
+                ep.append("px x %s GET /p %s 0 cl %s" % (mode, c01.hdr_tok(h), ";".join(ops)))
+        ep.append("px close")
+        eps.append(ep)
+    return eps
+
+
+def own_id_oracle(ep, outs):
+    from . import c01
+    fails = list(c01.oracle(ep, outs))
+    for l, o in zip(C.op_lines(ep), outs):
+        if l.startswith("px x via") and " ids=" in o:
+            ids = o.split(" ids=", 1)[1].split()[0]
+            for part, what in zip(ids.split("/"), ("request-ID", "trace")):
+                if part not in ("sup", "gen", "off"):
+                    fails.append("the %s the client gets is not the one the backend was sent (%s) although the backend merely added a header "
+                                 "of its own under that name [%s]" % (what, part, l))
+    return fails
 
 
 def check(ctx):
@@ -137,6 +173,7 @@ def check(ctx):
     we = wire_episodes(ctx.rng)
     C.Differential(ctx, binary, timeout=600, project=c01.project).check(we, oracle=c01.oracle, label="ids-wire")
     ctx.cov["wire_episodes_with_interim_responses"] = len(we)
+    C.Differential(ctx, binary, timeout=600).check_oracle_only(own_id_episodes(ctx.rng), own_id_oracle, "ids-own")
     paths = {}
     nontriv = set()
     if bad == 0:
